@@ -1662,8 +1662,9 @@ class LoopExpression(Expression):
             length = max(length - offset, 0)
         elif offset is not None:
             assert isinstance(offset, int), f"found {offset!r}"
-            # A negative offset is the same as no offset.
-            offset = max(offset, 0)
+            # A negative offset is the same as no offset, and there's nothing
+            # to skip beyond the end of the sequence.
+            offset = min(max(offset, 0), length)
             length = max(length - offset, 0)
 
         if limit is not None:
